@@ -15,7 +15,7 @@ pub fn mon() -> Mon {
         run,
         finish,
         replay,
-        rule: "Encoder catalogue with 7-bit addresses (plus the responses process_packet encodes, whose destination is the requester): all 128x128 (own, destination) pairs on every call form, every small parameter value, body sizes 0..300 and selected sizes up to 600 on the nine variable-body forms, random products. Each Ok(n) output is checked literally: b0 == dst<<1, b1 == 0x0F, b2 == n-4, b3 == src<<1|1, n == b2+4, and get_length (on a context with a different address) on prefixes of >= 3 bytes returns Ok(n); every call whose frame would need a byte count > 255 must return Err. Non-trivial = an output packet was judged or an oversize call was judged; distinct = distinct (form, output bytes) / (form, oversize length).",
+        rule: "Encoder catalogue with 7-bit addresses (plus the responses process_packet encodes: write bit, command code, byte count, source address, length probe): all 128x128 (own, destination) pairs on every call form, every small parameter value, body sizes 0..300 and selected sizes up to 600 on the nine variable-body forms, random products. Each Ok(n) output is checked literally: b0 == dst<<1, b1 == 0x0F, b2 == n-4, b3 == src<<1|1, n == b2+4, and get_length (on a context with a different address) on prefixes of >= 3 bytes returns Ok(n); every call whose frame would need a byte count > 255 must return Err. Non-trivial = an output packet was judged or an oversize call was judged; distinct = distinct (form, output bytes) / (form, oversize length).",
         assumptions: &[
             "own and destination addresses are 7-bit (the property's quantifier); 8-bit values are exercised by C05 only",
             "a panic on an oversize or boundary-size message is recorded here but judged by C16 (no panic), not C04",
@@ -131,7 +131,7 @@ fn run(cfg: &RunCfg) -> Report {
     rep
 }
 
-/// Framing of the packets process_packet encodes: destination = the requester's address.
+/// Framing of the packets process_packet encodes (which requester they go to is C12's).
 pub fn check_response(req: &[u8], resp: &[u8], who: &CtxCfg, probe: &MCTPSMBusContext, rep: &mut Report) {
     rep.eval();
     let n = resp.len();
@@ -144,8 +144,9 @@ pub fn check_response(req: &[u8], resp: &[u8], who: &CtxCfg, probe: &MCTPSMBusCo
             || format!("resp|{}|{}", who.encode(), crate::json::hex(req)),
         );
     };
-    if resp[0] != (req[3] & 0xFE) {
-        bad("b0-dest-addr", format!("byte 0 {:#04x} != requester address<<1 {:#04x}", resp[0], req[3] & 0xFE));
+    // that the destination IS the requester is C12's claim; here only the write bit
+    if resp[0] & 1 != 0 {
+        bad("b0-write-bit", format!("byte 0 {:#04x}: the write bit is not clear", resp[0]));
     }
     if resp[1] != 0x0F {
         bad("b1-command-code", format!("byte 1 {:#04x} != 0x0F", resp[1]));
